@@ -332,3 +332,39 @@ def install_name_generator(counter_holder):
             return "t%05d" % counter_holder[0]
     _real_tempfile._name_sequence = _Names()
     _real_tempfile._get_candidate_names = lambda: _real_tempfile._name_sequence
+
+
+def rebind_from_imports(mod, proxies):
+    """`from subprocess import run`, `from tempfile import mkdtemp`, `from ctypes
+    import CDLL`, `from os import replace` ... bind the real function in the
+    module under test, where replacing `mod.subprocess` etc. cannot reach it.
+    Every such name is bound to the corresponding attribute of the proxy instead.
+    *proxies* is a list of (real module, proxy); returns what to restore."""
+    saved = {}
+    for name, val in list(vars(mod).items()):
+        if name.startswith("__"):
+            continue
+        if isinstance(val, types.ModuleType):
+            # `import ctypes as ct`, `import os`, ... under whatever alias
+            for real, proxy in proxies:
+                if val is real:
+                    saved[name] = val
+                    setattr(mod, name, proxy)
+                    break
+            continue
+        rname = getattr(val, "__name__", None)
+        if not isinstance(rname, str):
+            continue
+        for real, proxy in proxies:
+            if getattr(real, rname, None) is val:
+                new = getattr(proxy, rname)
+                if new is not val:
+                    saved[name] = val
+                    setattr(mod, name, new)
+                break
+    return saved
+
+
+def real_modules():
+    return {"os.path": _real_os.path, "os": _real_os, "subprocess": _real_subprocess,
+            "tempfile": _real_tempfile, "ctypes": _real_ct}
